@@ -377,8 +377,21 @@ def Quiet (cls : T → Bytes → Verdict R) (t : T) (S : Bytes) : Prop :=
 def Good (cls : T → Bytes → Verdict R) (ts : List T) (t0 : T) (S : Bytes) : Prop :=
   t0 ∈ ts ∧ ∀ t ∈ ts, t = t0 ∨ Quiet cls t S
 
-theorem pass_below (cls : T → Bytes → Verdict R) (t0 : T) (r : R) (k : Nat) (S : Bytes)
-    (g : Genuine cls t0 r k S) (n : Nat) (hn : n < k) :
+/-- Generalisation for transports whose threshold and consumption differ (obfs4: the mark is found
+once the whole handshake of `thr` bytes is buffered, but the classifier itself consumes `k = 0` bytes —
+the handshake is read by the obfs4 library from the prepended buffer): below `thr` try-again, from `thr`
+on `found r k`, with `k ≤ thr`. -/
+structure GenuineAt (cls : T → Bytes → Verdict R) (t0 : T) (r : R) (thr k : Nat) (S : Bytes) : Prop where
+  le : k ≤ thr
+  below : ∀ n, n < thr → cls t0 (S.take n) = .tryAgain
+  above : ∀ n, thr ≤ n → n ≤ S.length → cls t0 (S.take n) = .found r k
+
+theorem Genuine.toAt {cls : T → Bytes → Verdict R} {t0 : T} {r : R} {k : Nat} {S : Bytes}
+    (g : Genuine cls t0 r k S) : GenuineAt cls t0 r k k S :=
+  ⟨Nat.le_refl k, g.below, g.above⟩
+
+theorem pass_below_at (cls : T → Bytes → Verdict R) (t0 : T) (r : R) (thr k : Nat) (S : Bytes)
+    (g : GenuineAt cls t0 r thr k S) (n : Nat) (hn : n < thr) :
     ∀ (ts keep : List T), (∀ t ∈ ts, t = t0 ∨ Quiet cls t S) → (∀ t ∈ keep, t = t0 ∨ Quiet cls t S) →
       (t0 ∈ ts ∨ t0 ∈ keep) →
       ∃ ts', (pass cls (S.take n) ts keep).2 = .cont ts' ∧
@@ -434,8 +447,8 @@ theorem pass_below (cls : T → Bytes → Verdict R) (t0 : T) (r : R) (k : Nat) 
       · rfl
       · exact hp a ha
 
-theorem pass_above (cls : T → Bytes → Verdict R) (t0 : T) (r : R) (k : Nat) (S : Bytes)
-    (g : Genuine cls t0 r k S) (n : Nat) (hk : k ≤ n) (hn : n ≤ S.length) :
+theorem pass_above_at (cls : T → Bytes → Verdict R) (t0 : T) (r : R) (thr k : Nat) (S : Bytes)
+    (g : GenuineAt cls t0 r thr k S) (n : Nat) (hk : thr ≤ n) (hn : n ≤ S.length) :
     ∀ (ts keep : List T), (∀ t ∈ ts, t = t0 ∨ Quiet cls t S) → t0 ∈ ts →
       ∃ pre, (pass cls (S.take n) ts keep).1 = pre ++ [.query t0 (S.take n).length (.found r k)] ∧
         (pass cls (S.take n) ts keep).2 = .found r k ∧ ∀ a ∈ pre, a.passive = true := by
@@ -467,17 +480,18 @@ theorem pass_above (cls : T → Bytes → Verdict R) (t0 : T) (r : R) (k : Nat) 
         · exact hp a ha
 
 /-- Segmentation invariance of the read loop: however the stream `S` is cut into reads (empty reads
-included), the loop ends by clearing the deadline, marking `r` active and proxying exactly the bytes
-after the `k` consumed ones, followed by whatever the socket delivers afterwards. -/
-theorem loop_segmentation (cls : T → Bytes → Verdict R) (sched : Nat → List T → List T)
-    (hs : SchedOk sched) (t0 : T) (r : R) (k : Nat) (S : Bytes) (g : Genuine cls t0 r k S)
+included), the loop ends — at the first read after which at least `thr` bytes are buffered — by
+clearing the deadline, marking `r` active and proxying exactly the bytes after the `k` consumed ones,
+followed by whatever the socket delivers afterwards. -/
+theorem loop_segmentation_at (cls : T → Bytes → Verdict R) (sched : Nat → List T → List T)
+    (hs : SchedOk sched) (t0 : T) (r : R) (thr k : Nat) (S : Bytes) (g : GenuineAt cls t0 r thr k S)
     (rest : List Ev) :
     ∀ (cs : List Bytes) (i : Nat) (buf : Bytes) (ts : List T),
-      Good cls ts t0 S → buf ++ cs.flatten = S → buf.length < k → k ≤ S.length →
+      Good cls ts t0 S → buf ++ cs.flatten = S → buf.length < thr → thr ≤ S.length →
       ∃ pre n, loop cls sched i ts buf (cs.map Ev.data ++ rest) =
           pre ++ [.query t0 n (.found r k), .clearDeadline, .markActive r,
                   .proxy r (S.drop k ++ dataOf rest), .ret] ∧
-        ∀ a ∈ pre, a.passive = true := by
+        thr ≤ n ∧ ∀ a ∈ pre, a.passive = true := by
   intro cs
   induction cs with
   | nil =>
@@ -498,13 +512,13 @@ theorem loop_segmentation (cls : T → Bytes → Verdict R) (sched : Nat → Lis
         fun u hu => hall u ((hs i (t :: ts) u).mp hu)
       have hin' : t0 ∈ sched i (t :: ts) := (hs i (t :: ts) t0).mpr hin
       simp only [List.map_cons, List.cons_append, loop]
-      by_cases hlt : (buf ++ c).length < k
+      by_cases hlt : (buf ++ c).length < thr
       · obtain ⟨ts', h2, hp, hin'', hall''⟩ :=
-          pass_below cls t0 r k S g _ hlt (sched i (t :: ts)) [] hall' (by simp) (Or.inl hin')
+          pass_below_at cls t0 r thr k S g _ hlt (sched i (t :: ts)) [] hall' (by simp) (Or.inl hin')
         rw [← hpre] at h2 hp
         rw [h2]
-        obtain ⟨pre, n, he, hpp⟩ := ih (i + 1) (buf ++ c) ts' ⟨hin'', hall''⟩ (by simp [← hS]) hlt hk
-        refine ⟨.readData c.length :: ((pass cls (buf ++ c) (sched i (t :: ts)) []).1 ++ pre), n, ?_, ?_⟩
+        obtain ⟨pre, n, he, hn, hpp⟩ := ih (i + 1) (buf ++ c) ts' ⟨hin'', hall''⟩ (by simp [← hS]) hlt hk
+        refine ⟨.readData c.length :: ((pass cls (buf ++ c) (sched i (t :: ts)) []).1 ++ pre), n, ?_, hn, ?_⟩
         · simp [he]
         · intro a ha
           rcases List.mem_cons.mp ha with rfl | ha
@@ -512,18 +526,50 @@ theorem loop_segmentation (cls : T → Bytes → Verdict R) (sched : Nat → Lis
           · rcases List.mem_append.mp ha with h | h
             · exact hp a h
             · exact hpp a h
-      · have hge : k ≤ (buf ++ c).length := by omega
+      · have hge : thr ≤ (buf ++ c).length := by omega
+        have hgek : k ≤ (buf ++ c).length := Nat.le_trans g.le hge
         obtain ⟨pre, h1, h2, hp⟩ :=
-          pass_above cls t0 r k S g _ hge hlen (sched i (t :: ts)) [] hall' hin'
+          pass_above_at cls t0 r thr k S g _ hge hlen (sched i (t :: ts)) [] hall' hin'
         rw [← hpre] at h1 h2
         rw [h2, h1]
-        refine ⟨.readData c.length :: pre, (buf ++ c).length, ?_, ?_⟩
+        refine ⟨.readData c.length :: pre, (buf ++ c).length, ?_, hge, ?_⟩
         · have hd : S.drop k = (buf ++ c).drop k ++ cs.flatten := by
-            rw [hS', List.drop_append_of_le_length hge]
+            rw [hS', List.drop_append_of_le_length hgek]
           simp [hd, dataOf_map_data]
         · intro a ha
           rcases List.mem_cons.mp ha with rfl | ha
           · rfl
           · exact hp a ha
+
+theorem pass_below (cls : T → Bytes → Verdict R) (t0 : T) (r : R) (k : Nat) (S : Bytes)
+    (g : Genuine cls t0 r k S) (n : Nat) (hn : n < k) :
+    ∀ (ts keep : List T), (∀ t ∈ ts, t = t0 ∨ Quiet cls t S) → (∀ t ∈ keep, t = t0 ∨ Quiet cls t S) →
+      (t0 ∈ ts ∨ t0 ∈ keep) →
+      ∃ ts', (pass cls (S.take n) ts keep).2 = .cont ts' ∧
+        (∀ a ∈ (pass cls (S.take n) ts keep).1, a.passive = true) ∧
+        t0 ∈ ts' ∧ ∀ t ∈ ts', t = t0 ∨ Quiet cls t S :=
+  pass_below_at cls t0 r k k S g.toAt n hn
+
+theorem pass_above (cls : T → Bytes → Verdict R) (t0 : T) (r : R) (k : Nat) (S : Bytes)
+    (g : Genuine cls t0 r k S) (n : Nat) (hk : k ≤ n) (hn : n ≤ S.length) :
+    ∀ (ts keep : List T), (∀ t ∈ ts, t = t0 ∨ Quiet cls t S) → t0 ∈ ts →
+      ∃ pre, (pass cls (S.take n) ts keep).1 = pre ++ [.query t0 (S.take n).length (.found r k)] ∧
+        (pass cls (S.take n) ts keep).2 = .found r k ∧ ∀ a ∈ pre, a.passive = true :=
+  pass_above_at cls t0 r k k S g.toAt n hk hn
+
+/-- the case threshold = consumption (min, prefix) -/
+theorem loop_segmentation (cls : T → Bytes → Verdict R) (sched : Nat → List T → List T)
+    (hs : SchedOk sched) (t0 : T) (r : R) (k : Nat) (S : Bytes) (g : Genuine cls t0 r k S)
+    (rest : List Ev) :
+    ∀ (cs : List Bytes) (i : Nat) (buf : Bytes) (ts : List T),
+      Good cls ts t0 S → buf ++ cs.flatten = S → buf.length < k → k ≤ S.length →
+      ∃ pre n, loop cls sched i ts buf (cs.map Ev.data ++ rest) =
+          pre ++ [.query t0 n (.found r k), .clearDeadline, .markActive r,
+                  .proxy r (S.drop k ++ dataOf rest), .ret] ∧
+        ∀ a ∈ pre, a.passive = true := by
+  intro cs i buf ts hg hS hb hk
+  obtain ⟨pre, n, he, _, hp⟩ :=
+    loop_segmentation_at cls sched hs t0 r k k S g.toAt rest cs i buf ts hg hS hb hk
+  exact ⟨pre, n, he, hp⟩
 
 end CJ.ConnHandler
